@@ -602,6 +602,13 @@ def b_equality(C, cfg, eng, ctx, mode, conds):
     r = ia == ia
     conds.append(("== is reflexive", z3.BoolVal(r if isinstance(r, bool) else bool(r))))
     conds.append(("comparison with a non-index is False", z3.BoolVal((ia == {3: "hi"}) is False and (ia == 5) is False)))
+    ie = C.iindexes.iindex({}, cfg["common"], tuple(cfg["shape"]))      # every cell common: no entries at all
+    for what, left, x in [("a dict", ia, {3: "hi"}), ("an int", ia, 5), ("None", ia, None), ("an empty dict", ia, {}),
+                          ("an empty dict (entry-less index)", ie, {}), ("a list", ie, [])]:
+        e1, n1 = (left == x), (left != x)
+        e2, n2 = (x == left), (x != left)
+        conds.append(("== %s is False and != is its negation, both ways round" % what,
+                      z3.BoolVal(e1 is False and n1 is True and e2 is False and n2 is True)))
     other = a.index(C, cfg["common"])
     r2 = ia == other
     conds.append(("an index equals an independently built index of the same content", z3.BoolVal(r2 if isinstance(r2, bool) else bool(r2))))
